@@ -21,7 +21,7 @@ for pid in ids:
         'replay_cmd_template': 'tools/check.py --replay {path}',
         'engine': 'lean4-proof+correspondence',
         'level_claimed': {'category': 'proof', 'text': n.get('text', titles.get(pid, '')), 'design_ref': n.get('design_ref', 'DESIGN.md §6 ' + pid)},
-        'level_note': n.get('note', 'Lean 4 kernel; axioms propext/Classical.choice/Quot.sound; translator py2lean + PyV/F64 semantics; hand model tied by differential correspondence; pandas/joblib/py_stringmatching/CPython floats modelled (DESIGN §8)'),
+        'level_note': 'Which clauses of the statement have a theorem, which only an oracle, which are limited by a known finding: REVIEW_COVERAGE.md (clause-by-clause). ' + n.get('note', 'Lean 4 kernel; axioms propext/Classical.choice/Quot.sound; translator py2lean + PyV/F64 semantics; hand model tied by differential correspondence; pandas/joblib/py_stringmatching/CPython floats modelled (DESIGN §8)'),
         'technique': n.get('technique', 'machine-checked proof in Lean 4 over a model tied to the source by translation and correspondence'),
     })
 m = {
@@ -30,9 +30,9 @@ m = {
     'hooks': {'guard': 'PY_STRINGSIMJOIN_VERIF', 'enable': 'no source hooks are needed: the harness imports /repo in-process, sets py_stringsimjoin.__use_cython__ = False at run time and calls internal functions directly',
               'baseline_off_cmd': 'python3 tools/baseline_check.py', 'source_commits': [], 'add_only': True},
     'engines': [{'name': 'lean4-proof+correspondence', 'path': 'tools/check.py', 'serves_properties': [c['property_id'] for c in checks],
-                 'kind_free_text': 'Lean 4 theorems (lean/SSJ/Props) about an executable model; model tied to /repo by (A) tools/py2lean.py regenerating lean/SSJ/Gen from the Python source on every run and (B) a JSON-line correspondence harness (tools/harness) diffing the compiled model against the real code; independent Python oracles search the real code for a failing input when a proof or the correspondence breaks'}],
+                 'kind_free_text': 'Lean 4 theorems (lean/SSJ/Props) about an executable model; model tied to /repo by (A) tools/py2lean.py and tools/py2lean2.py regenerating lean/SSJ/Gen from the Python source on every run (54 functions; the loop functions are proved equal to the hand model) and (B) a JSON-line correspondence harness (tools/harness) diffing the compiled model against the real code; independent Python oracles search the real code for a failing input when a proof or the correspondence breaks'}],
     'checks': checks,
-    'notes': 'Genuine defects found on the pinned tree were repaired by "fix:" commits in /repo (list in known_findings.json, fixed[]); those that are not small repairs are recorded as known findings K1..K9 there and printed as KNOWN-FINDING lines. See DESIGN.md §7.',
+    'notes': 'Genuine defects found on the pinned tree were repaired by "fix:" commits in /repo (list in known_findings.json, fixed[]); those that are not small repairs are recorded as known findings K1..K10 there and printed as KNOWN-FINDING lines. See DESIGN.md §7.',
     'not_applicable': na,
 }
 json.dump(m, open(os.path.join(VERIF, 'MANIFEST.json'), 'w'), indent=1)
